@@ -4,3 +4,4 @@ pub mod hist2;
 pub mod hist3;
 pub mod c01;
 pub mod pure;
+pub mod parse;
